@@ -78,7 +78,45 @@ fn asrv_sized<const N: usize>(c: &mut Cur, out: &mut Vec<i128>) {
                 let mut take = AsyncReadWriteTake::new(&mut chain, n);
                 let mut i = 0usize;
                 loop {
-                    let d = if i < dests.len() { dests[i] as usize } else { 8 };
+                    let dv = if i < dests.len() { dests[i] as usize } else { 8 };
+                    if dv >= 128 {
+                        // a destination of dv - 128 bytes filled the way read_exact / read_buf do it: the SAME ReadBuf is polled again
+                        // and again, so the take sees already-filled bytes in front of the part it may write
+                        let d = dv - 128;
+                        let mut store = vec![0xDDu8; d];
+                        let mut rb = tokio::io::ReadBuf::new(&mut store);
+                        let mut eof = false;
+                        let mut err = None;
+                        loop {
+                            let before = rb.filled().len();
+                            match Pin::new(&mut take).poll_read(&mut cx, &mut rb) {
+                                Poll::Pending => continue,
+                                Poll::Ready(Err(e)) => {
+                                    err = Some(e);
+                                    break;
+                                }
+                                Poll::Ready(Ok(())) => {
+                                    if rb.filled().len() == before {
+                                        eof = d != 0 && rb.remaining() != 0;
+                                        break;
+                                    }
+                                    if rb.remaining() == 0 {
+                                        break;
+                                    }
+                                }
+                            }
+                        }
+                        i += 1;
+                        payload.extend_from_slice(rb.filled());
+                        if let Some(e) = err {
+                            break Err(e);
+                        }
+                        if eof {
+                            break Ok(());
+                        }
+                        continue;
+                    }
+                    let d = dv;
                     let mut store = vec![0xDDu8; d];
                     let mut rb = tokio::io::ReadBuf::new(&mut store);
                     match Pin::new(&mut take).poll_read(&mut cx, &mut rb) {
